@@ -16,6 +16,7 @@ ENGINES = {
     "C11": "vlan",
     "C12": "pool",
     "C16": "files",
+    "C19": "pc",
     "C20": "history",
 }
 MODULES = {
@@ -23,6 +24,7 @@ MODULES = {
     "cli": "annetsim.engines.cli",
     "vlan": "annetsim.engines.vlan",
     "files": "annetsim.engines.files",
+    "pc": "annetsim.engines.pc",
     "history": "annetsim.engines.history",
 }
 
